@@ -123,6 +123,14 @@ def gen(tier, rng):
     # CNL integer wrappers as reps
     wr = [("elastic_integer<15>", "elastic_integer<7>", 2, "short", "signed char", ["a >= -32767", "b >= -127"]),
           ("elastic_integer<31>", "elastic_integer<10, unsigned>", 3, "int", "unsigned", ["a >= -2147483647", "b <= 1023"]),
+          # digits + shift at and around the 32 / 64 digit boundaries of the type the alignment is computed in (seeded change
+          # M-C01-6: the elastic scale<> picked its intermediate type from digits + shift - 1)
+          ("elastic_integer<16>", "elastic_integer<16>", 16, "int", "int", ["a >= -65535", "a <= 65535", "b >= -65535", "b <= 65535"]),
+          ("elastic_integer<15>", "elastic_integer<20>", 16, "short", "int", ["a >= -32767", "b >= -1048575", "b <= 1048575"]),
+          ("elastic_integer<17>", "elastic_integer<9>", 15, "int", "short", ["a >= -131071", "a <= 131071", "b >= -511", "b <= 511"]),
+          ("elastic_integer<17, unsigned>", "elastic_integer<9, unsigned>", 16, "unsigned", "unsigned short", ["a <= 131071", "b <= 511"]),
+          ("elastic_integer<31>", "elastic_integer<31>", 33, "int", "int", ["a >= -2147483647", "b >= -2147483647"]),
+          ("elastic_integer<40>", "elastic_integer<12>", 24, "long", "short", ["a >= -1099511627775", "a <= 1099511627775", "b >= -4095", "b <= 4095"]),
           ("overflow_integer<int, native_overflow_tag>", "overflow_integer<short, native_overflow_tag>", 4, "int", "short", []),
           ("rounding_integer<int, native_rounding_tag>", "rounding_integer<long, native_rounding_tag>", 1, "int", "long", [])]
     for (WA, WB, d, ra, rb, wpre) in wr:
@@ -131,7 +139,7 @@ def gen(tier, rng):
                 ea, eb = (-3 + d, -3) if order == 0 else (-3, -3 + d)
                 TA, TB = sname(WA, ea), sname(WB, eb)
                 decl = "using TA = %s; using TB = %s; using RR = decltype(unwrap(std::declval<TA>() %s std::declval<TB>()));" % (TA, TB, op)
-                cmap = {"short": I16, "signed char": I8, "int": I32, "unsigned": U32, "long": I64}
+                cmap = {"short": I16, "signed char": I8, "int": I32, "unsigned": U32, "long": I64, "unsigned short": U16}
                 if op == "*":
                     ref = decl + " return (RR)a * (RR)b;"
                 else:
